@@ -1,6 +1,7 @@
 package main
 
 import (
+	"bytes"
 	"encoding/binary"
 	"strings"
 	"sync"
@@ -231,6 +232,53 @@ func execC20(c Case) string {
 			return "false-negatives:" + itoa(tot)
 		}
 		return "ok"
+	case "gcsimm": // gcsimm <n> <seed>: a built / rebuilt GCS filter shares no memory with what it was made from or hands out
+		n, seed := atoi(a[0]), atou(a[1])
+		var key [gcs.KeySize]byte
+		key[0] = byte(seed)
+		data := [][]byte{}
+		for j := 0; j < n; j++ {
+			data = append(data, c20Item(seed, 3, j))
+		}
+		f, err := gcs.BuildGCSFilter(19, 784931, key, data)
+		if err != nil {
+			return "err"
+		}
+		want, _ := f.NBytes()
+		want = append([]byte{}, want...)
+		res := []string{}
+		same := func(g *gcs.Filter) string {
+			got, _ := g.NBytes()
+			return b2s(bytes.Equal(got, want))
+		}
+		nb := append([]byte{}, want...)
+		f2, _ := gcs.FromNBytes(19, 784931, nb)
+		raw, _ := f.Bytes()
+		raw = append([]byte{}, raw...)
+		f3, _ := gcs.FromBytes(f.N(), 19, 784931, raw)
+		for i := range nb {
+			nb[i] ^= 0xff
+		}
+		for i := range raw {
+			raw[i] ^= 0xff
+		}
+		for _, d := range data {
+			for i := range d {
+				d[i] ^= 0xff
+			}
+		}
+		res = append(res, same(f), same(f2), same(f3))
+		// the slices handed out by the accessors are the caller's to overwrite
+		for _, g := range []*gcs.Filter{f, f2, f3} {
+			for _, get := range []func() ([]byte, error){g.Bytes, g.NBytes, g.PBytes, g.NPBytes} {
+				out, _ := get()
+				for i := range out {
+					out[i] ^= 0xff
+				}
+			}
+			res = append(res, same(g))
+		}
+		return strings.Join(res, "")
 	case "gcsconc": // gcsconc <n> <k> <seed>
 		n, k, seed := atoi(a[0]), atoi(a[1]), atou(a[2])
 		var key [gcs.KeySize]byte
@@ -294,6 +342,7 @@ func genC20(r *Rng, tier string, emit func(Case)) {
 	}
 	e("reloadsame", "reload-current-message", "4", "20", u64s(r.U64()&0xffff))
 	e("concquery", "concurrent-queries", "8", "200", u64s(r.U64()&0xffff))
+	e("gcsimm", "immutable", itoa(r.Pick(1, 50, 300)), u64s(r.U64()&0xffff))
 	e("gcsconc", "queries", "200", "16", u64s(r.U64()&0xffff))
 	ra := 2
 	if tier == "thorough" {
